@@ -173,6 +173,8 @@ def leavesPerSector : Nat := 65536
 def tempSectorDuration : Nat := 432
 def maxSectorBatch : Nat := 262144
 def maxAccountBatch : Nat := 1000
+/-- `types.Currency` is 128 bits; `Currency.Add` panics beyond it -/
+def maxCurrency : Nat := 340282366920938463463374607431768211455
 
 /-- (literals are kept on the left of `+`/`*` so that the kernel never recurses on them) -/
 def round4KiB (n : Nat) : Nat := 4096 * ((4095 + n) / 4096)
@@ -324,6 +326,9 @@ inductive Req where
 /-- what the renter observes -/
 inductive Cls where
   | ok | badreq | decoding | payment | hosterr
+  /-- the handler panicked (`types.Currency.Add` overflow), `handleHostStream` recovered and closed
+  the stream without a response: the renter reads EOF -/
+  | io
   deriving DecidableEq, Repr, Inhabited
 
 structure Out where
@@ -484,6 +489,9 @@ def decideFund (h : Host) (cid : Nat) (deposits : List (Nat × Nat)) (sig : Sig)
     | .error e => reject e
     | .ok cs =>
       let ex := cs.c.body
+      -- `totalDeposits = totalDeposits.Add(deposit.Amount)` (`server.go:434-437`): panics past 2^128-1
+      if maxCurrency < depositTotal deposits then reject .io
+      else
       match reviseFund ex (depositTotal deposits) with
       | none => reject .payment
       | some b' =>
@@ -524,7 +532,9 @@ def decideReplenish (h : Host) (pool : Bool) (cid : Nat) (accounts : List Nat) (
         let bal := if pool then poolBal h.pools else h.accounts
         let deps := replenishDeposits bal target accounts
         let amounts := deps.map (·.2)
-        if depositTotal deps = 0 then { out := { cls := .ok, vals := amounts } }
+        -- `depositSum = depositSum.Add(deposit.Amount)` (`server.go:489,563`): panics past 2^128-1
+        if maxCurrency < depositTotal deps then reject .io
+        else if depositTotal deps = 0 then { out := { cls := .ok, vals := amounts } }
         else
           match reviseFund ex (depositTotal deps) with
           | none => reject .payment [] amounts
